@@ -43,7 +43,7 @@ T_MAX = 6.5
 
 def plan(tier):
     if tier == 'quick':
-        return dict(shards=1, budget_s=120, cells=5, N=48, hard_factor=5)
+        return dict(shards=1, budget_s=130, cells=4, N=48, hard_factor=5)
     return dict(shards=1, budget_s=1700, cells=14, N=192, hard_factor=3)
 
 
@@ -270,9 +270,41 @@ def replay(case):
             ex.shutdown()
 
 
+def strata(seed):
+    """Cells every run contains (stratification, DESIGN 1.7): classes that a
+    uniform draw over the grid reaches too rarely for a 5-cell quick run."""
+    base = dict(n_live=300, n_batch=100, n_update=None, n_like_new_bound=None,
+                n_points_min=None, split_threshold=100, enlarge_per_dim=1.1,
+                n_networks=0, periodic=None, seed=0, vectorized=True,
+                nn='medium', pool='none', f_live=0.01, n_shell=1, n_eff=2000,
+                discard_exploration=True)
+    rng = np.random.default_rng(seed)
+    edge = float(rng.choice([0.04, 0.06, 0.94]))
+    return [
+        # a mode cut by a cube face, proposals through the sampler pool: the
+        # pool path merges the counters of both rejection levels
+        dict(spec=dict(d=2, family='gauss', blob='none', prior='identity',
+                       params=dict(mu=[edge, 0.5], sigma=[0.1, 0.1])),
+             cfg=dict(base, pool='spool2'),
+             base_seed=int(rng.integers(0, 10 ** 6))),
+        # two modes with forced multi-ellipsoid outer bounds
+        dict(spec=dict(d=2, family='twosum', blob='none', prior='identity',
+                       params=dict(mu=[0.72, 0.72], mu2=[0.25, 0.25],
+                                   sigma=[0.05, 0.05], off2=-0.5)),
+             cfg=dict(base, n_live=600, split_threshold=1),
+             base_seed=int(rng.integers(0, 10 ** 6))),
+    ]
+
+
 def shard(ctx, tier, i, n):
     p = plan(tier)
     try:
+        from nv.core import with_timeout
+        for cell in strata(ctx.seed):
+            if ctx.out_of_time():
+                break
+            ctx.record(cell, with_timeout(
+                lambda c: run_case(c, N=p['N']), cell, ctx, 1500))
         hyp_generate(ctx, cells(tier), lambda c: run_case(c, N=p['N']),
                      p['cells'], case_timeout=1500, shrink_budget_s=1,
                      max_shrink_buckets=0)
